@@ -377,6 +377,15 @@ func checkRetained(ctx *pbt.Ctx, c Retained) error {
 			return err
 		}
 	}
+	// one long-lived parser with ErrorOnCheckSig over all parse steps
+	fp := &interpreter.DefaultOpcodeParser{ErrorOnCheckSig: true}
+	for i, r := range res {
+		if r.st.Op == "parse" {
+			if err := checkFlagged(ctx, fp, r.script, ref.ParserTokenize(r.script), r.ops, r.opsErr); err != nil {
+				return fmt.Errorf("step %d: %v", i, err)
+			}
+		}
+	}
 	if c.Scribble == 0 {
 		ctx.Label("no caller writes")
 		return nil
